@@ -2,6 +2,7 @@
 cascade.low.builders return (P3). Python synthesises the callables, drives the builders and dumps; the verdict is TLC's."""
 from __future__ import annotations
 
+import ast
 import json
 
 from cascade.low.builders import JobBuilder, TaskBuilder
@@ -14,7 +15,7 @@ LEVEL = "exploration"
 
 # ---- transport: descriptors -> real objects
 def val(d: dict):
-    return int(d["v"]) if d["t"] == "int" else d["v"]
+    return d["v"] if d["t"] == "str" else ast.literal_eval(d["v"])      # int, None, False, [], 0.0 ...
 
 
 def enc(x) -> dict:
@@ -87,6 +88,8 @@ def run_bind(c: dict) -> dict:
     kw = {k: val(v) for k, v in c["kw"]}
     try:
         bound = fresh.with_values(*args).with_values(**kw) if c["split"] else fresh.with_values(*args, **kw)
+        if c.get("kw2"):                      # a later call re-binds parameters (possibly to None)
+            bound = bound.with_values(**{k: val(v) for k, v in c["kw2"]})
         b = {"ok": True, "task": dump_task(bound), "error": ""}
     except Exception as e:
         return {"fresh_before": before, "fresh_after": dump_task(fresh),
@@ -129,7 +132,7 @@ def judge_env(cases_file) -> dict:
 
 def run(ctx):
     consts = {"MaxP": "2" if ctx.quick else "3", "MaxP2": "1" if ctx.quick else "2", "MaxPB": "2",
-              "MaxPB0": "2" if ctx.quick else "3", "NVals": "2" if ctx.quick else "3"}
+              "MaxPB0": "2" if ctx.quick else "3", "NVals": "2" if ctx.quick else "3", "Lean": "1" if ctx.quick else "0"}
     cases_file, cases = p3.generate(ctx, "Builder", consts)
     ctx.log(f"{len(cases)} cases")
     cases, results = p3.execute(ctx, cases, cases_file, result_of)
@@ -145,13 +148,15 @@ def run(ctx):
     ctx.coverage.update({
         "evaluations": len(cases), "distinct_nontrivial": nontrivial, "exhaustive": True,
         "bind_cases": nbind, "edge_cases": len(cases) - nbind, "final_outcomes": outcomes,
-        "rule": f"spec/Builder.tla!Bind: every valid signature with <= {consts['MaxPB']} parameters (positional-or-keyword / "
+        "rule": ("(quick tier: second parameter of two-parameter bind callables un-annotated, leaner two-edge cases) " if ctx.quick else "")
+                + f"spec/Builder.tla!Bind: every valid signature with <= {consts['MaxPB']} parameters (positional-or-keyword / "
                 "keyword-only, annotation absent/int/str, default absent/5/'d', return annotation absent (and int when nothing is bound); without defaults up to "
                 f"{consts['MaxPB0']} parameters) x every positional prefix x every keyword subset of the remaining parameters "
                 f"({consts['NVals']} values out of 1 / 'kv' / 'v'), in one with_values call or split in "
                 f"two; !Edge1: producer t1 (return annotation absent/int/str/bool/object) x consumer t2 (one parameter annotated "
                 f"absent/int/str/bool/object, or <= {consts['MaxP']} parameters annotated absent/int/str; no defaults) x one edge with source task/output, sink task, sink parameter existing or dangling, keyword or "
-                f"positional; !Edge3/!Bind3: callables that additionally have a positional-only parameter, *args (named "
+                f"positional; !Bind4: one parameter bound positionally / by keyword to None, 0, '', False, [], 0.0 and re-bound by a "
+                "second with_values call to each of them; !Edge3/!Bind3: callables that additionally have a positional-only parameter, *args (named "
                 "'args' or like the dangling edge name) and/or **kwargs, with keyword edges named like those; !Edge2: two edges (consumer <= {consts['MaxP2']} parameters); all enumerated by TLC; non-trivial = "
                 "binds a value or has an edge; TLC evaluates Builder!Post on every (case, dumps of the builders' results)",
         "clauses": ["build_raised_on_dangling_sink_task", "build_raised_on_other_dangling_edge", "build_raised_on_unannotated_source",
@@ -178,7 +183,7 @@ def run(ctx):
 def replay(ctx, rep) -> int:
     """./check C19 --replay <file>: run the recorded case through the real code again and let TLC judge it."""
     case = rep["replay"]["case"]
-    consts = {"MaxP": "2", "MaxP2": "1", "MaxPB": "2", "MaxPB0": "2", "NVals": "2"}
+    consts = {"MaxP": "2", "MaxP2": "1", "MaxPB": "2", "MaxPB0": "2", "NVals": "2", "Lean": "1"}
     cf = ctx.scratch / "c19_replay_cases.json"
     cf.write_text(json.dumps([case]))
     result = result_of(case)
